@@ -7,6 +7,8 @@ CONSTANTS
   LensKind = "one"
   WithReload = FALSE
   ReloadBumpsVersion = TRUE
+  WithHideKeep = FALSE
+  Follow = FALSE
   WithScroll = FALSE
   DelayedSetsVersion <- TreeDelayedSetsVersion
 SPECIFICATION Spec
